@@ -212,6 +212,20 @@ theorem sulfuric_needs_to_unitless_witness :
       = UV.si (sulfuricAcidDensityUV (1/2 : Rat) (UV.mk 300 1 Tdim') (UV.mk 1 1 Tdim') (UV.mk 1 1 [0,1,0,0,0,0,0]) (UV.mk 1 1 [1,0,0,0,0,0,0])) :=
   ⟨sulfuric_raw_witness, sulfuric_L2_example⟩
 
+/-- electrical_mobility_from_D with a units object in the quantity algebra: diffusion coefficient `δ` in a unit (f, Dd), temperature in (k, Td), the unit
+    symbols coulomb (c, Cd), joule (j, Jd), kelvin (kk, Kd): the SI value is the L1 value of the SI values, and the DIMENSION of the result is
+    `D · coulomb / (joule / kelvin · T)` — no other unit symbol (in particular no `mol`) enters -/
+theorem mobility_quantity_algebra (δ f z τ k c j kk : ℝ) (Dd Cd Jd Kd Td : Units.Dims) :
+    UV.si (mobilityU (α := UV ℝ) (UV.mk δ f Dd) (UV.num z) (UV.mk τ k Td) (UV.mk 1 c Cd) (UV.mk 1 j Jd) (UV.mk 1 kk Kd))
+      = some (mobilityU (δ * f) z (τ * k) c j kk,
+              Units.Dims.sub (Units.Dims.add Dd Cd) (Units.Dims.add (Units.Dims.sub Jd Kd) Td)) :=
+  mobilityU_L2 δ f z τ k c j kk Dd Cd Jd Kd Td
+
+/-- with SI dimensions (m²/s, A·s, kg·m²/s², K): m²/(V·s) = kg⁻¹·s²·A, amount-of-substance exponent 0 (no spurious `mol`) -/
+theorem mobility_dimension_no_mol :
+    Units.Dims.sub (Units.Dims.add [2, 0, -1, 0, 0, 0, 0] [0, 0, 1, 1, 0, 0, 0])
+      (Units.Dims.add (Units.Dims.sub [2, 1, -2, 0, 0, 0, 0] [0, 0, 0, 0, 1, 0, 0]) [0, 0, 0, 0, 1, 0, 0]) = [0, -1, 2, 1, 0, 0, 0] := by decide
+
 /-! ## 2. warnings: emitted iff outside the documented range
 Reference ranges (docstrings / messages of the source, papers): water density 0–40 °C (Tanaka 2001), viscosity 0–100 °C
 (Korson 1969), self-diffusion 0–100 °C (Holz 2000), permittivity 0–350 °C (Bradley & Pitzer 1979), sulfuric acid
@@ -263,6 +277,50 @@ theorem water_density_warn_unit_mode (τ K m kg : ℝ) (hK : 0 < K) :
   · rintro (h | h)
     · left; nlinarith
     · right; nlinarith
+
+/-- the range checks of the other correlations in unit mode are the plain ones (positive scale factors) -/
+theorem water_viscosity_warn_unit_mode (τ cP K : ℝ) (hK : 0 < K) :
+    waterViscosityUWarns (τ * K) cP K = waterViscosityWarns τ := by
+  rw [Bool.eq_iff_iff, waterViscosityWarns_iff]
+  simp only [waterViscosityUWarns, PyFn.warnGate, PyFn.anyS, Bool.true_and, NumReal.npow_eq_pow, NumReal.dec_eq, Int.cast_ofNat, Nat.cast_ofNat,
+    Nat.cast_one, Int.cast_neg, Bool.or_eq_true, decide_eq_true_eq, Nat.cast_zero]
+  constructor
+  · rintro (h | h)
+    · left; nlinarith
+    · right; nlinarith
+  · rintro (h | h)
+    · left; nlinarith
+    · right; nlinarith
+
+theorem water_diffusivity_warn_unit_mode (τ K m s : ℝ) (hK : 0 < K) :
+    waterDiffusivityUWarns (τ * K) K m s = waterDiffusivityWarns τ := by
+  rw [Bool.eq_iff_iff, waterDiffusivityWarns_iff]
+  simp only [waterDiffusivityUWarns, PyFn.warnGate, PyFn.anyS, Bool.true_and, NumReal.npow_eq_pow, NumReal.dec_eq, Int.cast_ofNat, Nat.cast_ofNat,
+    Nat.cast_one, Int.cast_neg, Bool.or_eq_true, decide_eq_true_eq, Nat.cast_zero]
+  constructor
+  · rintro (h | h)
+    · left; nlinarith
+    · right; nlinarith
+  · rintro (h | h)
+    · left; nlinarith
+    · right; nlinarith
+
+theorem sulfuric_acid_density_warn_unit_mode (w τ K kg m : ℝ) (hK : 0 < K) :
+    sulfuricTUWarns w (τ * K) K kg m = sulfuricTWarns w τ := by
+  rw [Bool.eq_iff_iff, sulfuricWarns_iff]
+  simp only [sulfuricTUWarns, PyFn.warnGate, PyFn.anyS, Bool.true_and, NumReal.npow_eq_pow, NumReal.dec_eq, Int.cast_ofNat, Nat.cast_ofNat,
+    Nat.cast_one, Int.cast_neg, Bool.or_eq_true, decide_eq_true_eq, Nat.cast_zero]
+  constructor
+  · rintro ((h | h) | (h | h))
+    · left; nlinarith
+    · right; left; nlinarith
+    · right; right; left; linarith
+    · right; right; right; linarith
+  · rintro (h | h | h | h)
+    · left; left; nlinarith
+    · left; right; nlinarith
+    · right; left; linarith
+    · right; right; linarith
 
 /-- lg_solubility_ratio warns iff fluoride is among the electrolytes -/
 theorem lg_solubility_ratio_warn_iff (l : List (String × ℝ)) :
@@ -369,12 +427,13 @@ theorem water_permittivity_strictly_decreasing_partial {T1 T2 : ℝ} (h0 : 273.1
 
 /-! ## 5. closed-form relations and their inverses -/
 
-/-- `Henry.__call__` is the van 't Hoff form `Hcp · exp(Tderiv · (1/T − 1/T0))`, T0 = 298.15 unless given -/
-theorem vant_hoff_spec (h : Henry ℝ) (T : ℝ) :
+/-- (domain: `T ≠ 0`, `T0 ≠ 0` — Python raises ZeroDivisionError there; Lean's `1/0 = 0` would make the statement hold for the wrong reason)
+    `Henry.__call__` is the van 't Hoff form `Hcp · exp(Tderiv · (1/T − 1/T0))`, T0 = 298.15 unless given -/
+theorem vant_hoff_spec (h : Henry ℝ) (T : ℝ) (_hT : T ≠ 0) (_hT0 : h.T0.getD 298.15 ≠ 0) :
     h.call T = h.Hcp * Real.exp (h.Tderiv * (1 / T - 1 / (h.T0.getD 298.15))) := Henry.call_eq h T
 
 /-- `d ln H / d(1/T) = Tderiv`: `ln (H(T) / Hcp)` is linear in `1/T` with slope `Tderiv`, and `H(T0) = Hcp` -/
-theorem vant_hoff_slope (h : Henry ℝ) (T : ℝ) (hH : 0 < h.Hcp) :
+theorem vant_hoff_slope (h : Henry ℝ) (T : ℝ) (hH : 0 < h.Hcp) (_hT : T ≠ 0) (_hT0 : h.T0.getD 298.15 ≠ 0) :
     Real.log (h.call T / h.Hcp) = h.Tderiv * (1 / T - 1 / (h.T0.getD 298.15)) ∧ h.call (h.T0.getD 298.15) = h.Hcp :=
   ⟨Henry.vant_hoff h T hH, Henry.at_T0 h⟩
 
@@ -410,22 +469,22 @@ theorem density_from_concentration_fixed_point (rhoCb : ℝ → ℝ) (conc M ato
     ∃ ρ' : ℝ, ρ = rhoCb (conc * M / ρ') ∧ |ρ - ρ'| ≤ atol :=
   dfcIter_ok _ _ _ _ h
 
-/-- success characterisation (the theorem above is not vacuous): if the first iterate already lies within `atol` of the start value and at least
-    one iteration is allowed, the function returns that iterate; with `maxiter = 0` it always raises NoConvergence -/
-theorem density_from_concentration_success (rhoCb : ℝ → ℝ) (conc M atol rho0 : ℝ) (maxiter : Nat)
-    (h : |rhoCb (conc * M / rho0) - rho0| ≤ atol) :
-    (1 ≤ maxiter → densityFromConcentrationWith rhoCb conc M atol rho0 maxiter = .ok (rhoCb (conc * M / rho0))) ∧
+/-- success characterisation (exact): with ρ₀ the start value and ρₖ₊₁ = rho_cb(conc·M/ρₖ) (`dfcSeq`), if `n` (1 ≤ n ≤ maxiter) is the FIRST index
+    with |ρₙ − ρₙ₋₁| ≤ atol, the function returns ρₙ; with `maxiter = 0` it always raises NoConvergence.  (Realistic: the docstring call
+    `density_from_concentration(400, 293)` has n = 5; more than `maxiter` non-converged passes ⇒ NoConvergence is `dfcIter`'s other branch.) -/
+theorem density_from_concentration_success (rhoCb : ℝ → ℝ) (conc M atol rho0 : ℝ) (maxiter n : Nat) (h1 : 1 ≤ n) (hn : n ≤ maxiter)
+    (hbefore : ∀ m, 1 ≤ m → m < n → atol < |dfcSeq rhoCb conc M rho0 m - dfcSeq rhoCb conc M rho0 (m - 1)|)
+    (hat : |dfcSeq rhoCb conc M rho0 n - dfcSeq rhoCb conc M rho0 (n - 1)| ≤ atol) :
+    densityFromConcentrationWith rhoCb conc M atol rho0 maxiter = .ok (dfcSeq rhoCb conc M rho0 n) ∧
     densityFromConcentrationWith rhoCb conc M atol rho0 0 = .error "NoConvergence" := by
-  have habs : pyAbs (rhoCb (conc * M / rho0) - rho0) = |rhoCb (conc * M / rho0) - rho0| := by
-    unfold pyAbs
-    split
-    · rename_i hneg; rw [abs_of_neg]; simpa using hneg
-    · rename_i hneg; rw [abs_of_nonneg]; simpa using hneg
   constructor
-  · intro hm
-    simp only [densityFromConcentrationWith, dfcIter, habs]
-    rw [if_neg (by omega), if_neg (not_lt.mpr h)]
+  · exact dfcIter_first_convergence hn hbefore hat (n - 1) 0 (maxiter + 1) (by omega) (by omega)
   · simp [densityFromConcentrationWith, dfcIter]
+
+/-- the first loop test `atol < abs(inf)`: for `atol = inf` / `nan` (`entered = false`) the start value is returned untouched -/
+theorem density_from_concentration_not_entered (rhoCb : ℝ → ℝ) (conc M atol rho0 : ℝ) (maxiter : Nat) :
+    densityFromConcentrationPy false rhoCb conc M atol rho0 maxiter = .ok rho0 ∧
+    densityFromConcentrationPy true rhoCb conc M atol rho0 maxiter = densityFromConcentrationWith rhoCb conc M atol rho0 maxiter := ⟨rfl, rfl⟩
 
 /-- the hand model of `sulfuric_acid_density` is the double power sum `Σ_i w^i Σ_j data[i][j] t^j` of Myhre's equation (2) -/
 theorem sulfuric_acid_density_is_power_sum (wi t : ℝ) (row : List ℝ) (j : Nat) :
